@@ -2,6 +2,7 @@ package main
 
 import (
 	"math/rand"
+	"strconv"
 	"strings"
 )
 
@@ -52,6 +53,8 @@ type c19Gen struct {
 	texts   []string // text between placeholders
 	plain   []string // placeholder-free string values
 	wide    bool
+	phKeys  bool // placeholder-shaped keys (c19PhKeyGen)
+	long    bool // lists of more than ten items, leaf names ending in numbers of different digit counts (c19LongGen)
 }
 
 func c19ClassicGen() *c19Gen {
@@ -126,6 +129,116 @@ func c19WideGen(r *rand.Rand) *c19Gen {
 	return g
 }
 
+// c19LongGen: "sorted" in the clauses is the order of the key STRINGS.  It differs from the orders a reader of a report
+// may find more natural - list items in document order, digit runs by numeric value, shorter keys first - only on
+// keys that are equal up to a run of digits of different LENGTH: l[10] sorts before l[2], k10 before k2.  So some
+// cases hold lists of more than ten items (top-level items, and items of a list of containers reached at a few
+// indices below and above ten) and leaf names ending in one- and two-digit numbers.
+func c19LongGen(r *rand.Rand) *c19Gen {
+	g := c19ClassicGen()
+	pool := []string{"a", "b", "d.e", "d.f", "k1", "k2", "k9", "k10", "k11"}
+	n := 11 + r.Intn(4)
+	for i := 0; i < n; i++ {
+		pool = append(pool, "l["+c19Itoa(i)+"]")
+	}
+	if r.Intn(2) == 0 {
+		for _, i := range []int{0, 1, 2, 9, 10, 12} {
+			if r.Intn(3) > 0 {
+				pool = append(pool, "g.m["+c19Itoa(i)+"].x")
+			}
+		}
+	}
+	r.Shuffle(len(pool), func(i, j int) { pool[i], pool[j] = pool[j], pool[i] })
+	g.pool = pool
+	g.unknown = append(append([]string{}, c19Unknown...), "k3", "k100")
+	g.long = true
+	return g
+}
+
+// c19PhKeyGen: "reports depend only on document content": a key is whatever string a mapping holds, also a text that
+// LOOKS like a value - `${x}`, `${a:b}`, the very text another key holds as its value, the text the key itself holds.
+// Key names and value texts are different things: a report about keys must not confuse the two.  Pool: 3-5
+// placeholder-shaped keys next to 1-2 plain ones; values: placeholder-shaped texts of the same small family (so a
+// value often equals the NAME of another key of the document, or of its own key), mentions of plain keys that are
+// mostly absent (unresolved: failed keys), defaults, plain text.  Plain keys mention only plain keys later in the
+// pool order or absent ones (acyclic); nobody mentions a placeholder-shaped key.  These cases are judged by the
+// direct predicates only (noModel).
+var c19PhShaped = []string{"${x}", "${y}", "${a:b}", "${k2}", "${nope}", "pre-${x}", "${x}${y}", "${y}-post"}
+var c19PhPlain = []string{"x", "y", "a", "k2"}
+
+func c19PhKeyGen(r *rand.Rand) *c19Gen {
+	g := c19ClassicGen()
+	var pool []string
+	n := 3 + r.Intn(3)
+	for _, i := range r.Perm(len(c19PhShaped))[:n] {
+		pool = append(pool, c19PhShaped[i])
+	}
+	for _, i := range r.Perm(len(c19PhPlain))[:1+r.Intn(2)] {
+		pool = append(pool, c19PhPlain[i])
+	}
+	r.Shuffle(len(pool), func(i, j int) { pool[i], pool[j] = pool[j], pool[i] })
+	g.pool = pool
+	g.unknown = []string{"nope", "u1", "${u1}", "${x}"}
+	g.phKeys = true
+	return g
+}
+
+// c19PhMentioned: the plain keys a text of the c19PhShaped family mentions.
+func c19PhMentioned(text string) []string {
+	var out []string
+	for _, k := range append(append([]string{}, c19PhPlain...), "nope") {
+		if strings.Contains(text, "${"+k+"}") || strings.Contains(text, "${"+k+":") {
+			out = append(out, k)
+		}
+	}
+	return out
+}
+
+func (g *c19Gen) phValue(r *rand.Rand, idx int) W {
+	key := g.pool[idx]
+	pos := map[string]int{}
+	for i, k := range g.pool {
+		pos[k] = i
+	}
+	shaped := strings.Contains(key, "${")
+	// a text may be used when it keeps the mentions acyclic: a plain key mentions only absent keys and plain keys
+	// later in the pool order
+	ok := func(text string) bool {
+		if shaped {
+			return true
+		}
+		for _, m := range c19PhMentioned(text) {
+			if p, in := pos[m]; in && p <= idx {
+				return false
+			}
+		}
+		return true
+	}
+	for try := 0; try < 8; try++ {
+		var text string
+		switch k := r.Intn(20); {
+		case k < 10:
+			text = pick(r, c19PhShaped)
+		case k < 13:
+			text = key // a key equal to its own value
+		case k < 15:
+			text = pick(r, g.pool) // the NAME of a key of the document as value text
+		case k < 17:
+			text = "${" + pick(r, c19PhPlain) + "}"
+		case k < 18:
+			text = "${" + pick(r, c19PhPlain) + ":" + pick(r, g.texts) + "}"
+		default:
+			return scalarWire(pick(r, g.plain))
+		}
+		if ok(text) {
+			return scalarWire(text)
+		}
+	}
+	return scalarWire(pick(r, g.plain))
+}
+
+func c19Itoa(i int) string { return strconv.Itoa(i) }
+
 // c19LayerNames: layer names for one document (classic, or confusable spellings).
 func c19LayerNames(r *rand.Rand, classic []string) []string {
 	if r.Intn(3) > 0 {
@@ -168,6 +281,12 @@ func c19KeyShape(keys []string) []string {
 			out["white-space-twins"] = true
 		}
 		trim[t] = s
+		if strings.Contains(s, "${") {
+			out["placeholder-shaped"] = true
+		}
+		if i := strings.LastIndex(s, "["); i >= 0 && strings.IndexByte(s[i:], ']') > 3 {
+			out["list-index>=10"] = true
+		}
 		if len(s) >= 19 && strings.Trim(s, "0123456789") == "" {
 			out["long-digit-string"] = true
 		}
